@@ -140,3 +140,207 @@ def targets(tier):
                raises=(), overrides=OV, field_types=FT, loops=loops, timeout=600,
                note="one generic item of one direction pass; is_proper_subtype an arbitrary boolean (assumed contract)"),
     ]
+
+
+# --------------------------------------------------------------------------------------------------
+# try_contracting_literals_in_union: one generic item of the scan, as a step relation on the entry
+#   k -> (lits, idxs)   of `sum_types` that the code consults for a literal item of a sum type:
+#   * k is the FULL name of the literal's fallback type (two types that merely share a short name never
+#     share an entry);
+#   * a new entry starts as (all members of that type, []): the enum's members, or {True, False};
+#   * lits' = lits - {value of the item},  idxs' = idxs + [position of the item];
+#   * items are replaced / marked exactly when lits' is empty: the replacement is the item's own fallback
+#     type written at idxs'[0], and exactly the positions idxs'[1:] are added to marked_for_deletion;
+#   * an item that is not a literal of a sum type changes nothing.
+# From the step relation the invariant 'idxs are positions of literal items of the type named k, and
+# every member of that type missing from lits is the value of one of them' follows by induction over the
+# scan (lemma, stated in DESIGN.md, not machine-checked): when lits' is empty every member is present as
+# a literal of exactly that type, so the contracted union is equivalent.
+
+import mypy.nodes as N
+
+
+def members_contract(I, args, kwargs):
+    info = args[0]
+    if "enum_members" not in info.ghost:
+        info.ghost["enum_members"] = I.make(TSeq(TStr()), "enum_members")
+    return info.ghost["enum_members"]
+
+
+def set_of(seq, sort):
+    x = z3.Const("ci_x", sort)
+    return z3.Lambda([x], z3.Contains(seq, z3.Unit(x)))
+
+
+def setup_contract_item(variant):
+    vty = TStr() if variant == "enum" else TBool()
+
+    def setup(I):
+        proper_types = I.make(TLList(TYPE), "proper_types")
+        idx = I.make(TInt(), "idx")
+        I.ctx.assume(z3.And(idx.t >= 0, idx.t < I.llist_len(proper_types)))
+        typ = I.llist_get_sym(proper_types, idx.t)
+        if variant == "enum":
+            typ.cands = [T.LiteralType, T.Instance, T.NoneType]
+        else:
+            # bool literals: precondition (type invariant of LiteralType) -- only enum literals, whose values
+            # are member names (str), have an enum fallback
+            typ.cands = [T.LiteralType]
+            I.ctx.assume(z3.Not(I.getattr(I.getattr(I.getattr(typ, "fallback"), "type"), "is_enum").t))
+        sum_types = I.make(TLDict(TStr(), TTuple([TSet(vty), TSeq(TInt())])), "sum_types")
+        pre = {}
+
+        def snapshot(I_, k, v):
+            # pre-state of the consulted entry; of its invariant only 'the first recorded position is a
+            # position before the current one' is needed here (re-established below)
+            pre["lits"], pre["idxs"] = v.items[0].t, v.items[1].t
+            return z3.Implies(z3.Length(pre["idxs"]) > 0, z3.And(pre["idxs"][0] >= 0, pre["idxs"][0] < idx.t))
+
+        sum_types.value_inv = snapshot
+        marked = I.make(TSet(TInt()), "marked_for_deletion")
+        return {"args": [], "locals": {"types": I.make(TLList(TYPE), "types"), "proper_types": proper_types, "sum_types": sum_types, "marked_for_deletion": marked,
+                                       "idx": idx, "typ": typ},
+                "proper_types": proper_types, "idx": idx, "typ": typ, "sum_types": sum_types, "marked0": marked.t, "vty": vty, "variant": variant, "pre": pre}
+    return setup
+
+
+def ens_contract_item(I, env, res):
+    L = env["__locals"]
+    pt, st, typ, idx, vty = env["proper_types"], env["sum_types"], env["typ"], env["idx"], env["vty"]
+    marked1 = L["marked_for_deletion"]
+    if not isinstance(marked1, ZVal) or L.get("proper_types") is not pt or L.get("sum_types") is not st or pt.appended:
+        return z3.BoolVal(False)
+    unchanged = z3.And(z3.BoolVal(not pt.sym_writes and not any(e[2] is not None for e in st.entries)), marked1.t == env["marked0"])
+    if typ.cands != [T.LiteralType]:
+        return unchanged
+    fb = I.getattr(typ, "fallback")
+    info = I.getattr(fb, "type")
+    is_enum = I.getattr(info, "is_enum").t
+    is_sum = is_enum if env["variant"] == "enum" else z3.BoolVal(True)
+    touched = [e for e in st.entries if e[2] is not None]
+    if not touched:
+        return z3.And(z3.Not(is_sum), unchanged)
+    if len(touched) != 1 or len(st.entries) != 1:
+        return z3.BoolVal(False)
+    key, present, val, present0 = touched[0][0], touched[0][1], touched[0][2], touched[0][3]
+    if not isinstance(val, STuple) or len(val.items) != 2:
+        return z3.BoolVal(False)
+    lits1, idxs1 = unwrap(TSet(vty), val.items[0]), unwrap(TSeq(TInt()), val.items[1])
+    fullname = I.getattr(info, "_fullname").t
+    value = I.getattr(typ, "value").t
+    if env["variant"] == "enum":
+        members = set_of(members_contract(I, [info], {}).t, StrS)
+    else:
+        members = z3.K(BoolS, z3.BoolVal(True))
+    pre = env["pre"]
+    if "lits" in pre:
+        lits0, idxs0 = pre["lits"], pre["idxs"]  # the entry existed (snapshot taken when it was first read)
+        existed = present0
+    else:
+        lits0, idxs0 = members, z3.Empty(z3.SeqSort(IntS))
+        existed = z3.Not(present0)
+    step = z3.And(is_sum, existed, key.t == fullname, present, lits1 == z3.Store(lits0, value, z3.BoolVal(False)), idxs1 == z3.Concat(idxs0, z3.Unit(idx.t)),
+                  idxs1[0] >= 0, idxs1[0] <= idx.t)
+    empty1 = lits1 == z3.K(vty.sort(), z3.BoolVal(False))
+    if pt.sym_writes:
+        if len(pt.sym_writes) != 1 or pt.sym_writes[0][1] is not fb:
+            return z3.BoolVal(False)
+        w = pt.sym_writes[0][0]
+        p = z3.Int("ci_p")
+        rest = z3.Extract(idxs1, z3.IntVal(1), z3.Length(idxs1) - 1)
+        first = idxs1[0]
+        # (the last conjunct is implied by the one before it; stated separately, quantifier-free, so that a
+        # change that deletes the kept position is refuted with a model rather than left undecided)
+        effect = z3.And(empty1, w == first, marked1.t == z3.Lambda([p], z3.Or(z3.Select(env["marked0"], p), z3.Contains(rest, z3.Unit(p)))),
+                        z3.Implies(z3.Select(marked1.t, first), z3.Or(z3.Select(env["marked0"], first), z3.Contains(rest, z3.Unit(first)))))
+    else:
+        effect = z3.And(z3.Not(empty1), marked1.t == env["marked0"])
+    import os
+    dbg = os.environ.get("UNION_DBG")
+    if dbg:
+        return (list(step.children()) + list(effect.children()))[int(dbg)]
+    return z3.And(step, effect)
+
+
+def targets_contract(tier):
+    out = []
+    for variant in ("enum", "bool"):
+        vty = TStr() if variant == "enum" else TBool()
+        ft = dict(FT)
+        ft.update({("LiteralType", "value"): vty, ("Instance", "type"): TObj(N.TypeInfo), ("TypeInfo", "_fullname"): TStr(), ("TypeInfo", "is_enum"): TBool()})
+        ov = dict(OV)
+        ov["mypy.nodes:TypeInfo.enum_members"] = members_contract
+        out.append(Target(f"typeops.try_contracting_literals_in_union.item.{variant}", "mypy.typeops:try_contracting_literals_in_union", setup_contract_item(variant),
+                          loop_body=("for idx, typ in enumerate(proper_types)", None), ensures=[("literals-contracted-only-when-every-member-of-that-very-type-is-present", ens_contract_item)],
+                          raises=(), overrides=ov, field_types=ft, timeout=600,
+                          note=f"one generic item, {variant} literals (LiteralType.value is a str for enum literals, a bool for bool literals: type invariant of LiteralType)"))
+    return out
+
+
+# ---- the induction over the scan, as a lemma over the step CONTRACT above (no code involved) -----------
+# Ghost functions over item positions: FN(p) the full name of the fallback type of the literal at p,
+# VAL(p) its value, MEM(k) the members of the sum type named k.  INV(k, lits, idxs, bound): idxs is a
+# strictly increasing list of positions below `bound` of literal items of the type named k; lits is a
+# subset of MEM(k); every member missing from lits is the value of an indexed item.
+
+
+def contraction_lemma():
+    from pyvc.solve import confirm_unsat
+
+    V = z3.DeclareSort("LitVal")
+    FNf, ISLITf, VALf = z3.Function("lc_FN", IntS, StrS), z3.Function("lc_ISLIT", IntS, BoolS), z3.Function("lc_VAL", IntS, V)
+    MEM = z3.Function("lc_MEM", StrS, z3.ArraySort(V, BoolS))
+
+    def INV(k, lits, a, n, bound):
+        j, j2 = z3.Ints("lc_j lc_j2")
+        v = z3.Const("lc_v", V)
+        return z3.And(n >= 0,
+                      z3.ForAll([j], z3.Implies(z3.And(j >= 0, j < n), z3.And(a[j] >= 0, a[j] < bound, FNf(a[j]) == k, ISLITf(a[j])))),
+                      z3.ForAll([j, j2], z3.Implies(z3.And(j >= 0, j < j2, j2 < n), a[j] < a[j2])),
+                      z3.ForAll([v], z3.Implies(lits[v], MEM(k)[v])),
+                      z3.ForAll([v], z3.Implies(z3.And(MEM(k)[v], z3.Not(lits[v])), z3.Exists([j], z3.And(j >= 0, j < n, VALf(a[j]) == v)))))
+
+    k = z3.Const("lc_k", StrS)
+    lits0 = z3.Const("lc_lits0", z3.ArraySort(V, BoolS))
+    a0 = z3.Const("lc_idxs0", z3.ArraySort(IntS, IntS))
+    n0, idx = z3.Ints("lc_n0 lc_idx")
+    value = z3.Const("lc_value", V)
+    v, j = z3.Const("lc_v2", V), z3.Int("lc_j3")
+    # what the step contract establishes for the current item: key == its full name, lits' = lits - {value}, idxs' = idxs + [idx]
+    step_h = z3.And(idx >= 0, FNf(idx) == k, ISLITf(idx), VALf(idx) == value)
+    inv0 = INV(k, lits0, a0, n0, idx)
+    goals = [
+        ("base/new-entry-satisfies-the-invariant", None, INV(k, MEM(k), a0, z3.IntVal(0), idx)),
+        ("step/invariant-preserved-by-the-step-contract", z3.And(inv0, step_h), INV(k, z3.Store(lits0, value, z3.BoolVal(False)), z3.Store(a0, n0, idx), n0 + 1, idx + 1)),
+        ("final/empty-lits-means-every-member-is-a-literal-item-of-that-very-type", z3.And(inv0, z3.ForAll([v], z3.Not(lits0[v]))),
+         z3.ForAll([v], z3.Implies(MEM(k)[v], z3.Exists([j], z3.And(j >= 0, j < n0, VALf(a0[j]) == v, FNf(a0[j]) == k, ISLITf(a0[j]), a0[j] >= 0, a0[j] < idx))))),
+    ]
+    obs = []
+    for name, hyp, goal in goals:
+        if hyp is not None:
+            cover = z3.Solver()
+            cover.set("timeout", 20000)
+            cover.add(hyp)
+            if cover.check() == z3.unsat:
+                obs.append({"name": f"contraction-lemma/{name}/non-vacuous", "status": "unknown", "where": "hypotheses are contradictory"})
+                continue
+        s = z3.Solver()
+        s.set("timeout", 30000)
+        s.add(z3.Not(z3.Implies(hyp, goal) if hyp is not None else goal))
+        r = s.check()
+        st, solver = "unknown", "z3"
+        if r == z3.unsat:
+            ok, by, _ = confirm_unsat("(set-logic ALL)\n" + s.to_smt2(), budget_s=60)  # quantified: z3 5.1's unsat alone is not believed
+            if ok:
+                st, solver = "discharged", "z3+" + by
+        elif r == z3.sat:
+            st = "refuted"
+        obs.append({"name": f"contraction-lemma/{name}", "status": st, "solver": solver, "kind": "lemma", "where": "lemma over the step contract of try_contracting_literals_in_union"})
+    return obs
+
+
+def targets_lemma(tier):
+    from pyvc.runner import StaticCheck
+
+    return [StaticCheck("typeops.try_contracting_literals_in_union.lemma", contraction_lemma,
+                        note="induction over the scan: base, step (from the per-item contract) and the conclusion at the moment of contraction")]
